@@ -51,8 +51,19 @@ partial def bytesOfHexAux : List Char → List U8 → Option (List U8)
     | _, _ => none
   | _, _ => none
 
+def bytesOfHexPlain (s : String) : Option (List U8) :=
+  if s == "-" || s.isEmpty then some [] else bytesOfHexAux s.toList []
+
+/-- hex bytes, optionally with the run-length prefix `z<N>:` (N zero bytes first) -/
 def bytesOfHex (s : String) : Option (List U8) :=
-  if s == "-" then some [] else bytesOfHexAux s.toList []
+  match s.toList with
+  | 'z' :: rest =>
+    match (String.ofList rest).splitOn ":" with
+    | [n, tail] => match n.toNat?, bytesOfHexPlain tail with
+      | some n, some bs => some (List.replicate n 0 ++ bs)
+      | _, _ => none
+    | _ => none
+  | _ => bytesOfHexPlain s
 
 /-! ## slots -/
 
@@ -223,7 +234,7 @@ def errOut (tryMode : Bool) : SrcErr → String
   | .exhausted => "blocked"
   | .diverged => "blocked"
 
-def XORSHIFT_FUEL : Nat := 4096
+def XORSHIFT_FUEL : Nat := 1000000
 
 /-- `from_rng` (`tryMode = false`) / `try_from_rng` with the slot value `src` as source:
     result line, new generator, new source -/
